@@ -86,6 +86,7 @@ func C01(ctx *core.Ctx, r *core.Report) {
 	c01ConfigInheritance(ctx, r)
 	c01InsertsACopy(ctx, r)
 	impliedCasePerNode(ctx, r)
+	c01SubmoduleMergeComplete(ctx, r)
 	r.Count("instances:memo-key-complete(tables found)", memoKeyComplete(ctx, r, scopeFuncs(ctx, "meta", "resolver.go", "util.go", "find.go", "builder.go")))
 }
 
@@ -1137,4 +1138,144 @@ func copyOrOriginal(v ssa.Value, seen map[ssa.Value]bool) (string, string) {
 		return "param", "its own argument " + x.Name()
 	}
 	return "other", fmt.Sprintf("%T %s", v, v.Name())
+}
+
+// c01SubmoduleMergeComplete (C01, C14): everything a submodule defines is
+// carried over into the module. (a) every collection field of meta.Module that
+// can hold definitions is read from the submodule by copyOverSubmoduleData;
+// (b) in each of its loops over such a collection every element is merged — the
+// store/add call lies on every way round the loop, so no element is skipped
+// (a skipped import, for one, is never resolved and is a nil module later).
+func c01SubmoduleMergeComplete(ctx *core.Ctx, r *core.Report) {
+	f := ctx.Method("meta", "resolver", "copyOverSubmoduleData")
+	mod := ctx.Named("meta", "Module")
+	if f == nil || mod == nil || len(f.Params) < 3 {
+		r.Fatalf("anchor meta.resolver.copyOverSubmoduleData not found")
+		return
+	}
+	sub := f.Params[2]
+	st := mod.Underlying().(*types.Struct)
+	// fields that belong to the (sub)module statement itself, not to what it defines
+	own := map[string]string{
+		"rev":           "revisions describe the submodule file itself",
+		"dataDefsIndex": "index of dataDefs, rebuilt by addDataDefinition",
+	}
+	read := map[string]bool{}
+	core.Instrs(f, func(_ *ssa.BasicBlock, in ssa.Instruction) {
+		if fa, ok := in.(*ssa.FieldAddr); ok && fa.X == ssa.Value(sub) {
+			read[st.Field(fa.Field).Name()] = true
+		}
+	})
+	n := 0
+	for i := 0; i < st.NumFields(); i++ {
+		fld := st.Field(i)
+		switch fld.Type().Underlying().(type) {
+		case *types.Map, *types.Slice:
+		default:
+			continue
+		}
+		if _, skip := own[fld.Name()]; skip {
+			continue
+		}
+		n++
+		r.Ob("submodule-merge-complete", "meta.Module."+fld.Name()+"/carried-over", ctx.Pos(fld.Pos()), read[fld.Name()],
+			"copyOverSubmoduleData never reads the submodule's "+fld.Name()+": what a submodule defines there is lost when it is included")
+	}
+	r.Floor("submodule-merge-complete", n, 12)
+	// (b) every back edge of a loop over a collection of sub passes the merge
+	nl := 0
+	for _, h := range f.Blocks {
+		body, hdr := innerLoopOf(h)
+		if hdr != h || body == nil {
+			continue
+		}
+		// what is ranged: a field of sub loaded before the loop, used by Range/len in or before the header
+		ranged := ""
+		for _, b := range f.Blocks {
+			for _, in := range b.Instrs {
+				var src ssa.Value
+				switch x := in.(type) {
+				case *ssa.Range:
+					if b.Dominates(h) || body[b] {
+						src = x.X
+					}
+				case *ssa.Call:
+					if bi, ok := x.Common().Value.(*ssa.Builtin); ok && bi.Name() == "len" && (b.Dominates(h) || b == h) {
+						src = x.Common().Args[0]
+					}
+				}
+				if src == nil {
+					continue
+				}
+				if u, ok := core.Strip(src).(*ssa.UnOp); ok {
+					if fa, ok := u.X.(*ssa.FieldAddr); ok && fa.X == ssa.Value(sub) {
+						// the loop this range belongs to: the nearest header it dominates
+						if b == h || (len(h.Preds) > 0 && b.Dominates(h) && onlyLoopAfter(b, h)) {
+							ranged = st.Field(fa.Field).Name()
+						}
+					}
+				}
+			}
+		}
+		if ranged == "" {
+			continue
+		}
+		nl++
+		// merge instructions in the body
+		var merges []*ssa.BasicBlock
+		for b := range body {
+			for _, in := range b.Instrs {
+				switch x := in.(type) {
+				case *ssa.MapUpdate:
+					merges = append(merges, b)
+				case ssa.CallInstruction:
+					name := ""
+					if cal := core.StaticCallee(x); cal != nil {
+						name = cal.Name()
+					} else if m := core.IfaceMethod(x); m != nil {
+						name = m.Name()
+					}
+					if strings.HasPrefix(name, "add") {
+						merges = append(merges, b)
+					}
+				}
+			}
+		}
+		ok := len(merges) > 0
+		if ok {
+			for _, p := range h.Preds {
+				if !body[p] {
+					continue // entry edge
+				}
+				dominated := false
+				for _, m := range merges {
+					if m.Dominates(p) {
+						dominated = true
+					}
+				}
+				if !dominated {
+					ok = false
+				}
+			}
+		}
+		r.Ob("submodule-merge-complete", "meta.resolver.copyOverSubmoduleData/loop:"+ranged, ctx.Pos(h.Instrs[0].Pos()), ok,
+			"an element of the submodule's "+ranged+" can go round the loop without being merged into the module: that definition is silently lost (an import skipped this way is never resolved: its module stays nil and the first reference through its prefix dereferences it)")
+	}
+	r.Floor("submodule-merge-complete(loops)", nl, 8)
+}
+
+// onlyLoopAfter: h is the first loop header that b dominates and that follows b
+// without another loop header in between (b is h's preheader chain).
+func onlyLoopAfter(b, h *ssa.BasicBlock) bool {
+	x := b
+	for steps := 0; steps < 4; steps++ {
+		if len(x.Succs) != 1 {
+			return false
+		}
+		x = x.Succs[0]
+		if x == h {
+			return true
+		}
+	}
+	return false
 }
